@@ -260,7 +260,9 @@ fn gen(prop: &str, tier: &str, seed: u64) -> Vec<String> {
                 let kind = *r.pick(&["builder", "write_file", "solid_builder", "solid_archive", "solid_write_file"]);
                 let comp = *r.pick(&[0u8, 1, 2, 4]);
                 let (enc, mode) = *r.pick(&[(1u8, 0u8), (1, 1), (2, 0), (2, 1)]);
-                let kdf = *r.pick(&cheap);
+                // PBKDF2-HMAC pads a short password with NUL bytes: pw and pw+NUL are the same key
+                // (known finding pbkdf2-trailing-nul, replayed from known_findings.txt)
+                let kdf = if vn == "trailing_nul" { cheap[1] } else { *r.pick(&cheap) };
                 out.push(format!("pair\t{}\t{}\t{}\t{}\t{}\t{}\t{}\t{}", kind, comp, enc, mode, kdf_text(&kdf), if pw.is_empty() { String::new() } else { hex(pw.as_bytes()) }, ohex(&rd_pw), vn));
                 n_pairs += 1;
             }
@@ -326,7 +328,11 @@ fn gen(prop: &str, tier: &str, seed: u64) -> Vec<String> {
             let comp = *r.pick(&[0u8, 1, 2, 4]);
             let pw = *r.pick(&["password", "P\u{e4}ssw\u{f6}rd", ""]);
             let vs = variants(pw);
-            let (_, rd_pw) = r.pick(&vs).clone();
+            let (mut vname, mut rd_pw) = r.pick(&vs).clone();
+            if vname == "trailing_nul" && ph.starts_with("$pbkdf2") {
+                (vname, rd_pw) = vs[0].clone();
+            }
+            let _ = vname;
             let h = |s: &str| if s.is_empty() { String::new() } else { hex(s.as_bytes()) };
             out.push(format!("read\t{}\t{}\t{}\t{}\t{}\t{}\t{}", enc, mode, hex(ph.as_bytes()), h(pw), h(pw), 999, comp));
             out.push(format!("read\t{}\t{}\t{}\t{}\t{}\t{}\t{}", enc, mode, hex(ph.as_bytes()), h(pw), ohex(&rd_pw), 999, comp));
